@@ -120,6 +120,30 @@ func genC19World(src *choice.Src) *World {
 	if src.Chance("freshout", 1, 5) {
 		w.PreOut = nil // regenerate into a fresh path instead of in place
 	}
+	// the same seven files under an equivalent, differently spelled invocation
+	switch src.Draw("spelling", 6) {
+	case 0:
+		for i := range w.Patterns {
+			w.Patterns[i] = "./" + w.Patterns[i]
+		}
+		w.Class = "self:dot-slash"
+	case 1:
+		w.AbsInputs = true
+		w.Class = "self:absolute-patterns"
+	case 2: // run from inside the configuration's directory (go:generate style)
+		strip := func(p string) string { return strings.TrimPrefix(p, selfDir+"/") }
+		for i := range w.Files {
+			w.Files[i].Path = strip(w.Files[i].Path)
+		}
+		for i := range w.Patterns {
+			w.Patterns[i] = strip(w.Patterns[i])
+		}
+		w.Out = strip(w.Out)
+		if w.PreOut != nil {
+			w.PreOut.Path = w.Out
+		}
+		w.Class = "self:from-config-dir"
+	}
 	return w
 }
 
@@ -144,7 +168,7 @@ func CheckC19(t Target, src *choice.Src, st *Stats) *Violation {
 	if st != nil {
 		st.Worlds++
 		st.note(w, r)
-		cls := "regenerate"
+		cls := "regenerate:" + w.Class
 		if faulted && len(r.Fired) > 0 {
 			cls = "regenerate-with-unreadable-input"
 		}
